@@ -29,6 +29,14 @@ import vlib
 CLASS_FILE = os.environ.get("VERIF_C09_CLASS") or os.path.join(vlib.VERIF, "tools", "harness", "options_class.json")
 
 
+# files whose code runs while a module's cached result (tree, types, error tuples) is produced
+ANALYSIS_FILES = ["mypy/semanal*.py", "mypy/check*.py", "mypy/typeanal.py", "mypy/subtypes.py", "mypy/messages.py", "mypy/types.py",
+                  "mypy/typeops.py", "mypy/fastparse.py", "mypy/nativeparse.py", "mypy/parse.py", "mypy/reachability.py", "mypy/binder.py",
+                  "mypy/partially_defined.py", "mypy/plugins/*.py", "mypy/plugin.py", "mypy/nodes.py", "mypy/meet.py", "mypy/join.py",
+                  "mypy/constraints.py", "mypy/solve.py", "mypy/infer.py", "mypy/expandtype.py", "mypy/exprtotype.py", "mypy/renaming.py",
+                  "mypy/treetransform.py", "mypy/typestate.py", "mypy/mro.py", "mypy/constant_fold.py", "mypy/applytype.py", "mypy/erasetype.py"]
+
+
 class T09Error(Exception):
     pass
 
@@ -347,6 +355,11 @@ def extract() -> dict:
             for a in option_reads(t, names, recv=("options", "opts", "global_options", "new_options", "cloned", "_options")):
                 sites[a].add(rel)
     r["read_sites"] = sorted((a, sorted(v)) for a, v in sites.items())
+    # reads inside the analysis modules (parsing, semantic analysis, type checking, message text, plugins)
+    import fnmatch
+    r["analysis_reads"] = [(a, fs2) for a, fs in r["read_sites"]
+                           for fs2 in [[f for f in fs if any(fnmatch.fnmatch(f, p) for p in ANALYSIS_FILES)]] if fs2]
+    need(len(r["analysis_reads"]) >= 40, "suspiciously few option reads in the analysis modules")
     return r
 
 
@@ -410,6 +423,8 @@ def generate() -> dict[str, str]:
     L.append(f"Definition precache_methods : list string := {slist(r['precache_methods'])}.")
     L.append(f"Definition precache_reads : list string := {slist(r['precache_reads'])}.")
     L.append("Definition read_sites : list (string * list string) :=\n  [" + ";\n   ".join(f"({q(n)}, {slist(v)})" for n, v in r["read_sites"]) + "].")
+    L.append("(* option reads inside the analysis modules: " + " ".join(ANALYSIS_FILES) + " *)")
+    L.append("Definition analysis_reads : list (string * list string) :=\n  [" + ";\n   ".join(f"({q(n)}, {slist(v)})" for n, v in r["analysis_reads"]) + "].")
     table = "\n".join(L) + "\n"
     cl = load_class()
     C = ["(* GENERATED from tools/harness/options_class.json by tools/extractors/t09.py -- do not edit *)",
@@ -419,7 +434,12 @@ def generate() -> dict[str, str]:
          ";\n   ".join(f"({q(n)}, {dict(key='Key', dir='Dir', post_load='PostLoad', inert='Inert', finding='Finding')[c]})" for n, c, _ in cl) + "].",
          "",
          "(* findings that are deliberate behaviour of mypy (\"by_design\": true), each recorded as a known finding *)",
-         f"Definition by_design : list string := {slist(load_by_design())}."]
+         f"Definition by_design : list string := {slist(load_by_design())}.",
+         "",
+         "(* reviewed reads of inert attributes inside analysis modules (attribute, files) *)",
+         "Definition reviewed_reads : list (string * list string) :=\n  [" + ";\n   ".join(
+             f"({q(n)}, {slist(v['analysis_reads_reviewed'])})" for n, v in json.load(open(CLASS_FILE))["attributes"].items()
+             if v.get("analysis_reads_reviewed")) + "]."]
     files = {"OptionsTable.v": table, "OptionsClass.v": "\n".join(C) + "\n"}
     for k, v in files.items():
         vlib.write_if_changed(os.path.join(vlib.GEN, k), v)
